@@ -252,7 +252,12 @@ func init() {
 		return runModelCheck(c, modelSpec{Level: "exploration",
 			Rule: "one evaluation = one block with an OPR set (0..65 records: valid, wrong version for the height, duplicates, outliers, unparsable payout addresses, one short of / exactly the winner count) and from 2.0 an SPR set (holders, non-holders, broken signatures, wrong versions) and a factoid block (burns and near-misses: two inputs, FCT outputs, foreign EC address, non-zero EC amount, after 2.0); the PEG / pFCT delta of every address must equal the payouts the grader library assigns to the winning records naming it (top-100 filter on the previous state) plus its valid burns, and each paid record must have exactly one coinbase row of that amount. Distinct non-trivial = (reward/burn event kind, era) pairs + coinbase rows compared.",
 			Assume: []string{"staking records whose staker id is claimed by a foreign key (recorded finding) run only in the tagged scenario"},
-			Profiles: func(c *Ctx) []modelParams { return featProfiles(c, 3, 24, 3, "c11") },
+			Profiles: func(c *Ctx) []modelParams {
+				ps := featProfiles(c, 3, 24, 3, "c11")
+				ps = append(ps, modelParams{Seed: c.Seed*1000 + 600, Features: []string{"quiet", "spr-impostor"}})
+				ps = append(ps, modelParams{Seed: c.Seed*1000 + 601, Features: []string{"quiet", "oob-pre202"}})
+				return ps
+			},
 			NonTrivial: func(rs []*orch.Result) (int64, map[string]interface{}) {
 				var k []string
 				for _, p := range []string{"opr-reward", "spr-reward", "fct-burn"} {
